@@ -13,6 +13,8 @@ From Cog Require Import Model.GoSem Model.GoSemSpec08 Model.GoSemSpec01 Model.Go
      Proofs.FrontEndOA Proofs.FrontEndOAWitness Proofs.FrontEndCueProofs Proofs.FrontEndChain Gen.Chains_gen Model.Process.
 From Cog Require Import Model.FrontEndChainSpec2 Model.FrontEndChainSpec3 Model.FrontEndChainSpecX
      Proofs.FrontEndChain2Sup Proofs.FrontEndChain2Safe Proofs.FrontEndChain3 Proofs.FrontEndChainX.
+From Cog Require Import Model.FrontEndChainSpec4 Model.FrontEndChainSpecX2
+     Proofs.FrontEndChain4Sup Proofs.FrontEndChain4Safe Proofs.FrontEndChainX2Sup Proofs.FrontEndChainX2Safe Proofs.FrontEndChainX2Cue.
 Import ListNotations.
 Local Open Scope string_scope.
 
@@ -211,3 +213,28 @@ Theorem src_valid_roundtrip_from_cue : forall s tname d out,
   roundtrip_holds out (src_pkg s) tname d = true.
 Proof. exact src_valid_roundtrip_plain_cue. Qed.
 Print Assumptions src_valid_roundtrip_from_cue.
+
+(* ---- last round: the source-terms form (no hypothesis about the chain's output) over the wider JSON Schema fragment
+   and from OpenAPI and CUE sources; src_safe3 / src_safe_oa / src_safe_cue are decidable walks of the document along
+   the SOURCE type; cue_no_bytes excludes `[...uint8]` members (they become []byte: finding C01-uint8-array-printed-as-base64) ---- *)
+Theorem src_valid_roundtrip_in_source_terms_nullable : forall s tname d,
+  chain_plain3 s = true -> json_wf d = true -> json_ints_int64 d = true ->
+  str_in tname (map fst (src_defs s)) = true -> src_safe3 s tname d = true ->
+  src_valid_doc "jsonschema" s tname d = true ->
+  exists out, process chain_go (parse_ctx s) = Ok out /\ roundtrip_holds out (src_pkg s) tname d = true.
+Proof. exact src_valid_roundtrip_source3. Qed.
+Print Assumptions src_valid_roundtrip_in_source_terms_nullable.
+Theorem src_valid_roundtrip_in_source_terms_openapi : forall s tname d,
+  chain_plain_oa s = true -> json_wf d = true -> json_ints_int64 d = true ->
+  str_in tname (map fst (src_defs s)) = true -> src_safe_oa s tname d = true ->
+  src_valid_doc "openapi" s tname d = true ->
+  exists out, process chain_go (parse_ctx_oa s) = Ok out /\ roundtrip_holds out (src_pkg s) tname d = true.
+Proof. exact src_valid_roundtrip_source_oa. Qed.
+Print Assumptions src_valid_roundtrip_in_source_terms_openapi.
+Theorem src_valid_roundtrip_in_source_terms_cue : forall s tname d,
+  chain_plain_cue s = true -> cue_no_bytes s = true -> json_wf d = true ->
+  str_in tname (map fst (src_defs s)) = true -> src_safe_cue s tname d = true ->
+  src_valid_doc "cue" s tname d = true ->
+  exists out, process chain_go (parse_ctx_cue s) = Ok out /\ roundtrip_holds out (src_pkg s) tname d = true.
+Proof. exact src_valid_roundtrip_source_cue. Qed.
+Print Assumptions src_valid_roundtrip_in_source_terms_cue.
